@@ -269,9 +269,11 @@ impl ColumnType<'_> {
             ColumnType::Native(n) => n.type_size_for_vector(),
             ColumnType::Tuple(_) => None,
             ColumnType::Collection { .. } => None,
+            // Saturating: the size of deeply nested vectors with large dimensions may exceed
+            // `usize` (no value of such a type can exist, reading one will fail for lack of bytes).
             ColumnType::Vector { typ, dimensions } => typ
                 .type_size_for_vector()
-                .map(|size| size * usize::from(*dimensions)),
+                .map(|size| size.saturating_mul(usize::from(*dimensions))),
             ColumnType::UserDefinedType { .. } => None,
         }
     }
